@@ -9,14 +9,15 @@ EV = 'src/server/ca/events.rs'
 ERR = 'src/commons/error.rs'
 
 
-def common(U):
+def common(U, skip=()):
     prelude.hashmap(U)
     prelude.strings(U)
     for t in ['CaHandle', 'ChildHandle', 'IdCertInfo']:
         U.opaque(t, 'Clone')
     for t in ['Rfc8183Id', 'RepositoryContact', 'ParentCaContact', 'ResourceClass', 'Routes', 'Rtas', 'AspaDefinitions', 'BgpSecDefinitions',
               'ChildState', 'UsedKeyState']:
-        U.opaque(t, '')
+        if t not in skip:
+            U.opaque(t, '')
     U.opaque('ParentHandle', 'Clone, PartialEq, Eq, Hash')
     U.opaque('ResourceClassName', 'Clone, PartialEq, Eq, Hash')
     U.opaque('KeyIdentifier', 'Clone, Copy, PartialEq, Eq, Hash')
